@@ -3,7 +3,8 @@
 source do the 18 static checks report?
 
 One AST-level mutation per variant (comparison operators, arithmetic operators, integer constants +-1, and/or,
-guard removal), applied to a scratch copy of the package; all 18 checks run against the copy.  Result per mutant:
+guard removal, negated conditions, min/max / argmin/argmax / any/all / ceil/floor / left/right swaps, swapped call
+arguments, swapped return elements, deleted fit/append/augmented-assignment statements), applied to a scratch copy of the package; all 18 checks run against the copy.  Result per mutant:
   killed     some check exits 1 (VIOLATION)
   undecided  no check exits 1 but some check exits 2 (the edit left the analysed subset: flagged, not decided)
   survived   every check exits 0  -> either an equivalent / property-irrelevant mutant or a gap in the checks
@@ -38,6 +39,8 @@ DEFAULT_FILES = [
     "utils/numba/general.py", "utils/numba/stats.py", "utils/validation/", "datasets/generate.py",
 ]
 
+NAME_SWAP = {"min": "max", "max": "min", "argmin": "argmax", "argmax": "argmin", "any": "all", "all": "any", "ceil": "floor", "floor": "ceil", "zeros": "ones", "minimum": "maximum", "maximum": "minimum", "cumsum": "cumprod"}
+ATTR_SWAP = {"left": "right", "right": "left"}
 CMP = {ast.Lt: ast.LtE, ast.LtE: ast.Lt, ast.Gt: ast.GtE, ast.GtE: ast.Gt, ast.Eq: ast.NotEq, ast.NotEq: ast.Eq}
 BIN = {ast.Add: ast.Sub, ast.Sub: ast.Add, ast.Mult: ast.Div, ast.Div: ast.Mult}
 
@@ -81,6 +84,23 @@ def sites(tree):
             out.append(("not-drop", i, ln))
         elif isinstance(n, ast.If) and len(n.body) == 1 and isinstance(n.body[0], ast.Raise) and not n.orelse:
             out.append(("guard-drop", i, ln))
+        elif isinstance(n, ast.If):
+            out.append(("cond-negate", i, ln))
+        if isinstance(n, ast.Call):
+            f = n.func
+            nm = f.attr if isinstance(f, ast.Attribute) else (f.id if isinstance(f, ast.Name) else None)
+            if nm in NAME_SWAP:
+                out.append(("call-swap", i, ln))
+            if len(n.args) >= 2 and all(isinstance(a, (ast.Name, ast.Attribute, ast.Subscript)) for a in n.args[:2]) and ast.unparse(n.args[0]) != ast.unparse(n.args[1]) and nm not in ("isinstance", "getattr", "hasattr", "zip", "check_larger_than", "check_in_interval"):
+                out.append(("arg-swap", i, ln))
+        if isinstance(n, ast.Attribute) and n.attr in ATTR_SWAP and isinstance(n.ctx, ast.Load):
+            out.append(("attr-swap", i, ln))
+        if isinstance(n, ast.Expr) and isinstance(n.value, ast.Call) and isinstance(n.value.func, ast.Attribute) and n.value.func.attr in ("fit", "append", "extend", "check_is_fitted"):
+            out.append(("stmt-del", i, ln))
+        if isinstance(n, ast.AugAssign):
+            out.append(("stmt-del", i, ln))
+        if isinstance(n, ast.Return) and isinstance(n.value, ast.Tuple) and len(n.value.elts) >= 2:
+            out.append(("return-swap", i, ln))
     return out
 
 
@@ -107,6 +127,25 @@ def mutate(src, kind, index):
         n.__dict__.update(copy.deepcopy(op).__dict__)
     elif kind == "guard-drop":
         n.test = ast.Constant(value=False)
+    elif kind == "cond-negate":
+        n.test = ast.UnaryOp(op=ast.Not(), operand=n.test)
+    elif kind == "call-swap":
+        f = n.func
+        if isinstance(f, ast.Attribute):
+            f.attr = NAME_SWAP[f.attr]
+        else:
+            f.id = NAME_SWAP[f.id]
+    elif kind == "arg-swap":
+        n.args[0], n.args[1] = n.args[1], n.args[0]
+    elif kind == "attr-swap":
+        n.attr = ATTR_SWAP[n.attr]
+    elif kind == "stmt-del":
+        n.__class__ = ast.Pass
+        for k_ in list(n.__dict__):
+            if k_ not in ("lineno", "col_offset", "end_lineno", "end_col_offset"):
+                del n.__dict__[k_]
+    elif kind == "return-swap":
+        n.value.elts[0], n.value.elts[1] = n.value.elts[1], n.value.elts[0]
     ast.fix_missing_locations(tree)
     after = ast.unparse(nodes[index])[:80] if kind != "not-drop" else ast.unparse(n)[:80]
     out = ast.unparse(tree) + "\n"
@@ -149,6 +188,7 @@ def main():
     ap.add_argument("--out", default="/tmp/scratch/mutants.jsonl")
     ap.add_argument("--limit", type=int, default=0)
     ap.add_argument("--stride", type=int, default=1, help="take every k-th mutation site")
+    ap.add_argument("--kinds", nargs="*", default=None, help="only these mutation kinds")
     a = ap.parse_args()
     jobs = []
     for dp, dn, fn in os.walk(os.path.join(a.repo, "skchange")):
@@ -159,7 +199,8 @@ def main():
                 continue
             tree = ast.parse(open(os.path.join(a.repo, rel)).read())
             for kind, idx, ln in sites(tree):
-                jobs.append((rel, kind, idx, ln))
+                if a.kinds is None or kind in a.kinds:
+                    jobs.append((rel, kind, idx, ln))
     jobs = jobs[:: a.stride]
     if a.limit:
         jobs = jobs[: a.limit]
